@@ -1,7 +1,8 @@
 //@ inject crate=core src=quic/s2n-quic-core/src/frame/connection_close.rs
 // C05 contract harnesses for CONNECTION_CLOSE (RFC 9000 19.19, types 0x1c / 0x1d) and NEW_CONNECTION_ID (19.15).
-// Oracle: `_rfc9000_wire.rs`.  level=bounded: reason phrase <= 4 bytes; connection id length as concrete
-// shapes 1, 8, 20 (contents symbolic); all integer fields full-domain.
+// Oracle: `_rfc9000_wire.rs`.  level=bounded: reason phrase <= 4 bytes (integer fields full-domain); connection id
+// length as concrete shapes 1, 8, 20 (contents symbolic) with sequence numbers from one varint length class at a
+// time; the reference-parser agreement (arbitrary bytes) mixes all lengths.
 use super::*;
 use crate::frame::NewConnectionId;
 use s2n_codec::{DecoderBufferMut, DecoderParameterizedValueMut, EncoderBuffer};
@@ -103,11 +104,26 @@ fn payload_is_window(d: &[u8], bytes: &[u8; W], start: usize, n: usize) -> bool 
 // "Retire Prior To ... The value in the Retire Prior To field MUST be less than or equal to the value in the
 // Sequence Number field.  Receiving a value ... greater ... MUST be treated as a connection error of type
 // FRAME_ENCODING_ERROR."
-fn new_connection_id_shape<const L: usize>(cid: [u8; L], put_cid: fn(&mut Wire<W>, &[u8; L])) {
-    let seq = any_int();
-    let rpt = any_int();
+/// any value of one RFC 9000 Table 4 length class: `wide` = 8-byte form (2^30 ..= 2^62-1), else 1-byte form (0 ..= 63)
+fn any_int_of(wide: bool) -> u64 {
+    let x: u64 = kani::any();
+    if wide {
+        kani::assume(x >= 1073741824 && x <= RFC_VARINT_MAX);
+    } else {
+        kani::assume(x <= 63);
+    }
+    x
+}
+
+/// the frame value and its oracle bytes; sequence number and retire-prior-to from one length class at a time (with
+/// both full-domain and a 64-byte frame the harnesses did not finish within 1500 s)
+fn new_connection_id_enc<const L: usize>(put_cid: fn(&mut Wire<W>, &[u8; L])) {
+    let cid: [u8; L] = kani::any();
+    let wide: bool = kani::any();
+    let seq = any_int_of(wide);
+    let rpt = any_int_of(wide);
     let token: [u8; 16] = kani::any();
-    let mut spec = Wire::<W>::new(kani::any());
+    let mut spec = Wire::<W>::new([0u8; W]);
     spec.new_connection_id_head(seq, rpt, L as u8);
     put_cid(&mut spec, &cid);
     spec.arr16(&token);
@@ -120,11 +136,23 @@ fn new_connection_id_shape<const L: usize>(cid: [u8; L], put_cid: fn(&mut Wire<W
     let x = run_encoder_exact(&f);
     assert!(x.used == x.announced, "C05/new_connection_id.enc/len_eq_announced_without_slack");
     assert!(suffix_eq64(&x.out, &x.before, x.announced), "C05/new_connection_id.enc/nothing_written_past_announced_len");
+    kani::cover!(wide && rpt > seq, "reach:wide_fields");
+    kani::cover!(!wide && rpt == seq, "reach:one_byte_fields");
+}
 
+fn new_connection_id_dec<const L: usize>(put_cid: fn(&mut Wire<W>, &[u8; L])) {
+    let cid: [u8; L] = kani::any();
+    let wide: bool = kani::any();
+    let seq = any_int_of(wide);
+    let rpt = any_int_of(wide);
+    let token: [u8; 16] = kani::any();
+    let mut spec = Wire::<W>::new(kani::any());
+    spec.new_connection_id_head(seq, rpt, L as u8);
+    put_cid(&mut spec, &cid);
+    spec.arr16(&token);
     let extra: usize = kani::any();
     kani::assume(extra <= 3 && spec.n + extra <= W);
-    let mut input = spec.b;
-    let r = decode_as::<NewConnectionId>(&mut input, spec.n + extra, T_NEW_CONNECTION_ID);
+    let r = decode_as::<NewConnectionId>(&mut spec.b, spec.n + extra, T_NEW_CONNECTION_ID);
     assert!(r.is_some() == (rpt <= seq), "C05/new_connection_id.dec/ok_iff_retire_prior_to_le_sequence_number");
     if let Some((g, rest)) = r {
         assert!(rest == extra, "C05/new_connection_id.dec/remainder");
@@ -146,7 +174,7 @@ fn new_connection_id_shape<const L: usize>(cid: [u8; L], put_cid: fn(&mut Wire<W
     }
     kani::cover!(rpt == seq && extra == 3, "reach:retire_prior_to_eq_sequence_number");
     kani::cover!(rpt == seq + 1, "reach:retire_prior_to_too_large");
-    kani::cover!(seq == RFC_VARINT_MAX && rpt == 0, "reach:max_sequence_number");
+    kani::cover!(seq == RFC_VARINT_MAX && extra == 0, "reach:max_sequence_number_exact_fit");
 }
 
 // ---- ref helpers ----------------------------------------------------------------------------------------------
@@ -321,33 +349,57 @@ fn vq_c05_frame_connection_close_exact() {
 }
 
 // ---- 19.15 NEW_CONNECTION_ID ------------------------------------------------------------------------------
-//@ harness props=C05 tier=thorough level=bounded timeout=1500 bound="connection id length 1 (contents symbolic); sequence numbers full-domain"
+//@ harness props=C05 tier=thorough level=bounded timeout=1500 bound="connection id length 1 (contents symbolic); sequence number and retire-prior-to both <= 63 or both in 2^30..=2^62-1"
 //@ fn NewConnectionId::encode
-//@ fn NewConnectionId::decode_parameterized_mut
 #[kani::proof]
 #[kani::unwind(10)]
-fn vq_c05_frame_new_connection_id_len1() {
-    new_connection_id_shape::<1>(kani::any(), Wire::<W>::arr1);
+fn vq_c05_frame_new_connection_id_len1_enc() {
+    new_connection_id_enc::<1>(Wire::<W>::arr1);
     kani::cover!(true, "reach:end");
 }
 
-//@ harness props=C05 tier=thorough level=bounded timeout=1500 bound="connection id length 8 (contents symbolic); sequence numbers full-domain"
-//@ fn NewConnectionId::encode
+//@ harness props=C05 tier=thorough level=bounded timeout=1500 bound="connection id length 1 (contents symbolic); sequence number and retire-prior-to both <= 63 or both in 2^30..=2^62-1; <= 3 trailing bytes"
 //@ fn NewConnectionId::decode_parameterized_mut
 #[kani::proof]
 #[kani::unwind(10)]
-fn vq_c05_frame_new_connection_id_len8() {
-    new_connection_id_shape::<8>(kani::any(), Wire::<W>::arr8);
+fn vq_c05_frame_new_connection_id_len1_dec() {
+    new_connection_id_dec::<1>(Wire::<W>::arr1);
     kani::cover!(true, "reach:end");
 }
 
-//@ harness props=C05 tier=thorough level=bounded timeout=1500 bound="connection id length 20 (contents symbolic); sequence numbers full-domain"
+//@ harness props=C05 tier=thorough level=bounded timeout=1500 bound="connection id length 8 (contents symbolic); sequence number and retire-prior-to both <= 63 or both in 2^30..=2^62-1"
 //@ fn NewConnectionId::encode
+#[kani::proof]
+#[kani::unwind(10)]
+fn vq_c05_frame_new_connection_id_len8_enc() {
+    new_connection_id_enc::<8>(Wire::<W>::arr8);
+    kani::cover!(true, "reach:end");
+}
+
+//@ harness props=C05 tier=thorough level=bounded timeout=1500 bound="connection id length 8 (contents symbolic); sequence number and retire-prior-to both <= 63 or both in 2^30..=2^62-1; <= 3 trailing bytes"
 //@ fn NewConnectionId::decode_parameterized_mut
 #[kani::proof]
 #[kani::unwind(10)]
-fn vq_c05_frame_new_connection_id_len20() {
-    new_connection_id_shape::<20>(kani::any(), Wire::<W>::arr20);
+fn vq_c05_frame_new_connection_id_len8_dec() {
+    new_connection_id_dec::<8>(Wire::<W>::arr8);
+    kani::cover!(true, "reach:end");
+}
+
+//@ harness props=C05 tier=thorough level=bounded timeout=1500 bound="connection id length 20 (contents symbolic); sequence number and retire-prior-to both <= 63 or both in 2^30..=2^62-1"
+//@ fn NewConnectionId::encode
+#[kani::proof]
+#[kani::unwind(10)]
+fn vq_c05_frame_new_connection_id_len20_enc() {
+    new_connection_id_enc::<20>(Wire::<W>::arr20);
+    kani::cover!(true, "reach:end");
+}
+
+//@ harness props=C05 tier=thorough level=bounded timeout=1500 bound="connection id length 20 (contents symbolic); sequence number and retire-prior-to both <= 63 or both in 2^30..=2^62-1; <= 3 trailing bytes"
+//@ fn NewConnectionId::decode_parameterized_mut
+#[kani::proof]
+#[kani::unwind(10)]
+fn vq_c05_frame_new_connection_id_len20_dec() {
+    new_connection_id_dec::<20>(Wire::<W>::arr20);
     kani::cover!(true, "reach:end");
 }
 
